@@ -256,7 +256,9 @@ def Con.parse (env : Env) (data : Bytes) : Con → (ctx : Fields) → (pos : Nat
       return (.int (toSigned (8 * n) (decNat le bs)), pos + n, ctx)
   | .u24 le, ctx, pos => do
       let bs ← readExact data pos 3
-      return (.int (decNat le bs), pos + 3, ctx)
+      -- construct_utils: struct "<HB" / ">BH", then `l | (h << 16)`
+      let (l, h) := if le then (leNat (bs.take 2), leNat (bs.drop 2)) else (beNat (bs.drop 1), beNat (bs.take 1))
+      return (.int (l ||| (h <<< 16)), pos + 3, ctx)
   | .uleb, ctx, pos => do
       let (v, p) ← parseUleb data pos
       return (.int v, p, ctx)
